@@ -105,7 +105,7 @@ UNPROVED = ["the model is rational: complex fields are covered through linearity
             "sends (dirOfJson, pydir: tuples as lists, lists holding a non-string as 'anything else') is trusted glue, exercised by stream (c)"]
 BUDGET = {"quick": 120, "thorough": 1200}
 
-NAMES = ["x", "y", "z", "a", "b", "c", "u", "v", "w", "t"]
+NAMES = ["x", "y", "z", "a", "b", "c", "u", "v", "w", "t", "V", "n", "x1", "region"]   # incl. names whose d<name> / plain spelling is an attribute of Mesh
 UNITS = ["m", "nm", "s", "K", "T", "A"]
 CELLS = [Fraction(1, 4), Fraction(1, 2), Fraction(3, 4), Fraction(1), Fraction(5, 4), Fraction(3, 2), Fraction(2),
          Fraction(3), Fraction(5, 8), Fraction(3, 8), Fraction(5, 2), Fraction(7, 4)]
@@ -162,7 +162,7 @@ def gen_mesh(rng, tier, ndim=None, n=None, plain=False, far=False, tolsub=False)
     dd = dims or (["x", "y", "z"][:ndim] if ndim <= 3 else [f"x{i}" for i in range(ndim)])
     bc = ""
     if rng.random() < 0.3 and not plain:
-        bc = "".join(d for d in dd if len(d) == 1 and rng.random() < 0.6)
+        bc = "".join(d for d in dd if len(d) == 1 and d == d.lower() and rng.random() < 0.6)   # (bc is lower-cased by its setter)
     subs = []
     for k in range(0 if plain else rng.choice([0, 0, 1, 2])):
         lo, hi = [], []
